@@ -15,7 +15,7 @@ import json, os, re, shutil, subprocess, sys, time
 VERIF = os.path.dirname(os.path.dirname(os.path.abspath(__file__)))
 
 
-def sh(cmd, cwd=None, env=None, timeout=1800):
+def sh(cmd, cwd=None, env=None, timeout=5400):
     e = dict(os.environ)
     e["CARGO_NET_OFFLINE"] = "true"
     if env:
@@ -33,7 +33,25 @@ def tests_ok(wt):
     return compiled and not failed, failed, out[-1500:]
 
 
+def rebase(wt):
+    """Move a seeded worktree onto /repo's current HEAD (the seeds are judged against the current tree)."""
+    rc, cur = sh("git diff -- src Cargo.toml", cwd=wt)
+    open(os.path.join(wt, "_seed_cur.diff"), "w").write(cur)
+    head = sh("git -C /repo rev-parse HEAD")[1].strip()
+    sh("git apply -R _seed_cur.diff", cwd=wt)
+    rc1, o1 = sh("git checkout -q --detach " + head, cwd=wt)
+    rc2, o2 = sh("git apply --3way _seed_cur.diff", cwd=wt)
+    if rc2 != 0:
+        rc2, o2 = sh("git apply _seed_cur.diff", cwd=wt)
+    print("rebase", wt, "->", head[:8], "ok" if rc2 == 0 else "FAILED: " + o2[-300:])
+    sh("git reset -q", cwd=wt)
+    os.remove(os.path.join(wt, "_seed_cur.diff"))
+    return rc2 == 0
+
+
 def main():
+    if len(sys.argv) >= 3 and sys.argv[1] == "rebase":
+        return 0 if all(rebase(os.path.abspath(w)) for w in sys.argv[2:]) else 1
     if len(sys.argv) < 5 or sys.argv[1] != "confirm":
         print(__doc__)
         return 2
@@ -46,20 +64,30 @@ def main():
     meta["steps"]["tests_with_change"] = {"pass": ok, "failed": failed}
     rc1, o1 = sh(["sh", "_out/demo.sh", os.path.join(wt, "target/debug/cicada")], cwd=wt, timeout=600)
     meta["steps"]["demo_with_change"] = {"rc": rc1, "tail": o1[-400:]}
-    sh("git stash -q", cwd=wt)
+    # NOTE: `git stash` is shared by all worktrees of a repository -- never use it here.
+    rc, cur = sh("git diff -- src Cargo.toml", cwd=wt)
+    open(os.path.join(wt, "_seed_cur.diff"), "w").write(cur)
+    meta["steps"]["worktree_diff_equals_patch"] = (cur.strip() == open(os.path.join(out_dir, "patch.diff")).read().strip()) \
+        if os.path.exists(os.path.join(out_dir, "patch.diff")) else None
+    sh("git apply -R _seed_cur.diff", cwd=wt)
     try:
         sh("cargo build --offline 2>&1 | tail -1", cwd=wt)
         rc0, o0 = sh(["sh", "_out/demo.sh", os.path.join(wt, "target/debug/cicada")], cwd=wt, timeout=600)
         meta["steps"]["demo_without_change"] = {"rc": rc0, "tail": o0[-400:]}
     finally:
-        sh("git stash pop -q", cwd=wt)
+        sh("git apply _seed_cur.diff", cwd=wt)
+        os.remove(os.path.join(wt, "_seed_cur.diff"))
     confirmed = ok and rc1 != 0 and rc0 == 0
     meta["confirmed"] = confirmed
     checks = {}
     if confirmed:
         for p in props:
             t = time.time()
+            ev = os.path.join(VERIF, "evidence", p + ".json")
+            saved = open(ev).read() if os.path.exists(ev) else None
             rc, o = sh(["./check", p, "quick"], cwd=VERIF, env={"CICADA_REPO": wt}, timeout=3000)
+            if saved is not None:   # evidence must describe runs on the unchanged tree only
+                open(ev, "w").write(saved)
             viol = [l for l in o.split("\n") if l.startswith("VIOLATION")]
             checks[p] = {"exit": rc, "violations": viol[:5], "caught": rc == 1 and bool(viol), "wall_s": round(time.time() - t, 1)}
             for v in viol[:1]:
